@@ -30,4 +30,12 @@ def Cli.output (c : Cli) (pic : Nat) : Cli := { next := c.next + 1, written := c
 /-- the decoder calls the output callback once per decoded picture, in decode order -/
 def runCallbacks (pics : List Nat) : Cli := pics.foldl Cli.output {}
 
+/-- `_print_conformance_error`: the bit offset named in the report title and handed to the viewer
+    hint is the exception's own offending offset when it has one (0 is a perfectly good offset: the
+    first parse_info), the reader's current position otherwise -/
+def reportedOffset (offending : Option Nat) (tell : Nat) : Nat :=
+  match offending with
+  | some o => o
+  | none => tell
+
 end VC2.Model.ValidatorCli
